@@ -261,6 +261,41 @@ fn judge_histories<'a>(b: &'a [u8], mut it: Compound<'a>, tiles: &[(usize, usize
         let w: Vec<u64> = want.iter().map(|x| x.0).collect();
         judge_adaptors(b, &w, t, v);
     }
+
+    // history 5: the iterator is handed to another thread part-way (a view is `Send`: parse on the
+    // I/O thread, process on a worker).  The other thread has a compound of its own, with other
+    // boundaries, alive at that moment.  Nothing runs concurrently: the thread is joined at once.
+    if t.choose(128) == 127 {
+        let w: Vec<u64> = want.iter().map(|x| x.0).collect();
+        let mut moved = Compound::parse(b).unwrap();
+        let k = t.choose(w.len() + 1);
+        for _ in 0..k {
+            v.events += 1;
+            let _ = moved.next();
+        }
+        let limit = tiles.len() + 2;
+        let joined = std::thread::scope(|sc| {
+            sc.spawn(move || {
+                const OTHER: &[u8] = &[0x80, 203, 0, 0, 0x81, 203, 0, 1, 0, 0, 0, 7, 0x80, 201, 0, 1, 0, 0, 0, 9];
+                let mut own = Compound::parse(OTHER).ok();
+                let first = own.as_mut().and_then(|c| c.next()).map(|r| r.is_ok());
+                let rest: Vec<u64> = moved.map(|r| render(&r)).take(limit).collect();
+                let more = own.map(|c| c.count());
+                (rest, first, more)
+            })
+            .join()
+        });
+        match joined {
+            Ok((rest, _, _)) => {
+                if rest != w[k.min(w.len())..] {
+                    v.violation = Some(("Iter:moved_differs".into(), format!("handed to another thread after {k} calls, the iterator yielded {} more items, expected {}", rest.len(), w.len() - k.min(w.len()))));
+                }
+            }
+            Err(_) => {
+                v.violation = Some(("Iter:unwound".into(), format!("handed to another thread after {k} calls, iterating the accepted compound unwound although Packet::parse returns normally on each of its tiles")));
+            }
+        }
+    }
 }
 
 /// History 4: the other ways of driving an iterator.  `nth`, `skip`, `step_by`, `count`, `last`,
